@@ -307,11 +307,13 @@ def report(rep, viols, kind):
             clause,
             sig,
             "%s\nminimal input (%s): %s\n%d inputs with this signature" % (detail, kind, inp, len(items)),
-            {"kind": kind, "cases": [i for i, _ in items[:10]], "count": len(items)},
+            {"kind": kind, "cases": [i for i, _ in items[:10]]},
         )
 
 
 def replay(rep, args, wd):
+    # a replay must not overwrite the evidence of the last full run
+    runner.REPO = "replay:" + runner.REPO
     with open(args.replay) as f:
         data = json.load(f)
     rp = data["replay"]
